@@ -1261,11 +1261,22 @@ class UGrid(DimensionConvention[UGridKind, UGridIndex]):
                 new_edge_indexes, new_node_indexes,
                 primary_dimension=topology.edge_dimension, fill_value=new_fill_value))
 
+        # Coordinate variables that are defined on a mesh dimension
+        # have to be sliced in the same way as the data variables are,
+        # otherwise they no longer match the size of the clipped mesh.
+        coord_selectors: dict[Hashable, numpy.ndarray] = {
+            topology.node_dimension: numpy.flatnonzero(~numpy.ma.getmaskarray(new_node_indexes)),
+            topology.face_dimension: numpy.flatnonzero(~numpy.ma.getmaskarray(new_face_indexes)),
+        }
+        if has_edges:
+            coord_selectors[topology.edge_dimension] = numpy.flatnonzero(~numpy.ma.getmaskarray(new_edge_indexes))
+        coords = dataset.coords.to_dataset().isel(coord_selectors, missing_dims='ignore').coords
+
         # Save all the topology variables to one combined dataset
         topology_path = work_path / (str(topology.mesh_variable.name) + ".nc")
         topology_dataset = xarray.Dataset(
             data_vars={variable.name: variable for variable in topology_variables},
-            coords=dataset.coords,
+            coords=coords,
         )
         topology_dataset.to_netcdf(topology_path)
         mfdataset_paths.append(topology_path)
